@@ -397,7 +397,8 @@ ERROR_REPLAYS = {"mean.": (replay_mean, {"nl": 2, "nr": 2}), "copula.": (replay_
 
 
 def main(tier):
-    bounds = {"grids": "1-d symbolic grids up to 2+1 points (quick) / 3+3 points and 1 refinement (thorough); truncation bounds anywhere relative to +-1",
+    bounds = {"histories_and_variants": 'copula margins also on two axes that differ in their outer points (1+2 points per axis); copula small-jump covariance with the quadrature and the matrix square root as stubs (2-d, both margins of infinite variation)',
+              "grids": "1-d symbolic grids up to 2+1 points (quick) / 3+3 points and 1 refinement (thorough); truncation bounds anywhere relative to +-1",
               "representations": "all four, finite/infinite activity and variation",
               "outside": "n-d small-jump covariance (vol_adjustment_ij: nquad in a process pool, sqrtm); the per-cell oscillation bound on x^2 "
                          "(a property of the measure, not of the code); omega of the exponential models (C10): model.drift() is an arbitrary symbol here"}
